@@ -140,6 +140,17 @@ fn damage_sure(src: &mut Src, case: &Case) -> Option<(String, &'static str, Scop
                 ItemKind::AttrValue(q) => q.local.clone(),
                 _ => return None,
             };
+            // the alias is declared on the element itself, or (second form) on its top-most
+            // ancestor, so that the element with the two attributes need not declare anything
+            if src.bool() {
+                if let Some(top) = spans.iter().find(|s| s.kind == ItemKind::ElementStart && s.path.len() == 1 && v.path.first() == s.path.first()) {
+                    if top.end <= v.end {
+                        let t = ins(v.end + 1, &format!(" zz9:{}=\"dup\"", local));
+                        let t = format!("{} xmlns:zz9=\"{}\"{}", &t[..top.end], escape_attr(&ns), &t[top.end..]);
+                        return Some((t, "duplicate_attribute_via_alias_prefix_declared_above", Scope::Both));
+                    }
+                }
+            }
             Some((
                 ins(v.end + 1, &format!(" xmlns:zz9=\"{}\" zz9:{}=\"dup\"", escape_attr(&ns), local)),
                 "duplicate_attribute_via_alias_prefix",
